@@ -268,8 +268,12 @@ def body(prop, args, seed, t0):
         "wall_s": round(time.time() - t0, 2),
         "violations": 0 if rc == 0 else 1,
     }
-    os.makedirs(os.path.join(common.VERIF, "evidence"), exist_ok=True)
-    json.dump(ev, open(os.path.join(common.VERIF, "evidence", f"{prop}.json"), "w"), indent=1, default=str)
+    # evidence/ holds runs against /repo itself only; a run against another tree (OQ_REPO, used for seeded changes)
+    # writes its evidence elsewhere
+    evdir = os.environ.get("VERIF_EVIDENCE_DIR") or (
+        os.path.join(common.VERIF, "evidence") if os.path.abspath(common.REPO) == "/repo" else "/tmp/verif_evidence_other_tree")
+    os.makedirs(evdir, exist_ok=True)
+    json.dump(ev, open(os.path.join(evdir, f"{prop}.json"), "w"), indent=1, default=str)
     print(f"{prop} {tier} seed={seed}: obligations {discharged}/{obligations}, cases {len(cases)} "
           f"(model-compared {n_model}, nontrivial {len(nontriv)}), mismatches {len(mismatches)}, "
           f"oracle failures {len(oracle_fails)} ({len(listed)} listed), {ev['wall_s']}s -> exit {rc}")
